@@ -255,6 +255,10 @@ func buildEvents() []*event {
 	add(event{Name: "LOGOUT", Class: cLogout, Lines: []string{"LOGOUT\r\n"}})
 	add(event{Name: "unknown-command", Class: cUnknown, Lines: []string{"XBOGUS\r\n"}})
 	add(event{Name: "unknown-UID-command", Class: cUnknown, Lines: []string{"UID XBOGUS 1\r\n"}})
+	// "UID" in front of a command that has no UID form is not a command either
+	add(event{Name: "unknown-UID-NOOP", Class: cUnknown, Lines: []string{"UID NOOP\r\n"}})
+	add(event{Name: "unknown-UID-LOGIN", Class: cUnknown, Lines: []string{"UID LOGIN user pass\r\n"}})
+	add(event{Name: "unknown-UID-SELECT", Class: cUnknown, Lines: []string{"UID SELECT box\r\n"}})
 	add(event{Name: "broken-SELECT-no-mailbox", Class: cBroken, Lines: []string{"SELECT\r\n"}})
 	add(event{Name: "broken-LOGIN-no-password", Class: cBroken, Lines: []string{"LOGIN user\r\n"}})
 	add(event{Name: "broken-LOGOUT-with-argument", Class: cBroken, Lines: []string{"LOGOUT now\r\n"}})
